@@ -74,6 +74,15 @@ pub fn tiny_policy() -> Policy {
     p
 }
 
+/// the sectors suite's own policy: additionally, one message addresses at most 4 sectors / 3 partitions, so that
+/// more than 4 simultaneous early terminations leave a backlog that follow-up cron callbacks work off
+pub fn sectors_policy() -> Policy {
+    let mut p = tiny_policy();
+    p.addressed_sectors_max = 4;
+    p.addressed_partitions_max = 3;
+    p
+}
+
 fn bf(v: &Value) -> BitField {
     let mut b = BitField::new();
     for x in v.as_array().unwrap() {
@@ -99,6 +108,8 @@ pub struct World {
     pub bad_posts: std::cell::RefCell<Vec<(String, u64)>>,
     /// epoch at which each miner was created (its creation deposit starts vesting there)
     pub created: BTreeMap<String, i64>,
+    /// generator mode: miner m1 never proves (its sectors fault, time out together and leave a termination backlog)
+    pub neglect: std::cell::Cell<bool>,
 }
 
 impl World {
@@ -109,7 +120,7 @@ impl World {
     /// `boost`: start from a network whose pledge total already holds 1M FIL of other miners'
     /// pledge (a configuration in which finding F1's negative-total abort cannot trigger)
     pub fn new_boosted(seed: u64, n_miners: usize, boost: bool) -> World {
-        let v = VVM::genesis(tiny_policy());
+        let v = VVM::genesis(sectors_policy());
         let boost_amt = if boost { TokenAmount::from_whole(1_000_000) } else { TokenAmount::from_atto(0) };
         if boost {
             let mut ps: PowerState = v.state(&STORAGE_POWER_ACTOR_ADDR).unwrap();
@@ -141,7 +152,7 @@ impl World {
             miners.push(m.to_string());
         }
         let burnt0 = v.balance(&BURNT_FUNDS_ACTOR_ADDR);
-        World { boost: boost_amt, v, names, miners, burnt0, bad_posts: Default::default(), created }
+        World { boost: boost_amt, v, names, miners, burnt0, bad_posts: Default::default(), created, neglect: Default::default() }
     }
 
     pub fn mstate(&self, m: &str) -> MinerState {
@@ -703,7 +714,7 @@ fn random_call(rng: &mut Rng, w: &World, policy: &Policy) -> Value {
         let posted: Vec<u64> = ms["dls"].as_array().unwrap()[cur as usize]["posted"].as_array().unwrap().iter().map(|x| x.as_u64().unwrap()).collect();
         let open: Vec<_> = parts.iter().filter(|p| p.0 == cur && !posted.contains(&p.1)
             && p.2.iter().any(|s| !p.6.contains(s) && (!p.4.contains(s) || p.5.contains(s)))).collect();
-        if !open.is_empty() && epoch >= pps && rng.chance(70) {
+        if !open.is_empty() && epoch >= pps && rng.chance(70) && !(w.neglect.get() && m == "m1") {
             let mut sel = vec![];
             for p in &open {
                 if rng.chance(85) {
@@ -719,7 +730,7 @@ fn random_call(rng: &mut Rng, w: &World, policy: &Policy) -> Value {
     }
     if rng.chance(9) {
         // non-interactive commit: short-lived sectors straight into a chosen deadline
-        let cnt = rng.range(1, 3);
+        let cnt = if w.neglect.get() { rng.range(2, 6) } else { rng.range(1, 3) };
         let mut sectors = vec![];
         for _ in 0..cnt {
             let n = if rng.chance(88) {
@@ -756,7 +767,7 @@ fn random_call(rng: &mut Rng, w: &World, policy: &Policy) -> Value {
         ns.dedup();
         return json!({"a": "ProveCommit", "m": m, "c": who, "ns": ns, "requireAll": rng.chance(30)});
     }
-    if (24..30).contains(&k) {
+    if (24..30).contains(&k) && !(w.neglect.get() && m == "m1") {
         // PoSt for the current deadline (or, rarely, another one)
         let d = if rng.chance(90) { cur } else { rng.range(0, nd - 1) };
         let ps: Vec<&(i64, u64, Vec<u64>, Vec<u64>, Vec<u64>, Vec<u64>, Vec<u64>)> = parts.iter().filter(|p| p.0 == d).collect();
@@ -905,7 +916,8 @@ pub fn header(policy: &Policy) -> Value {
     json!({"D": policy.wpost_period_deadlines, "W": policy.wpost_challenge_window, "P": policy.wpost_proving_period,
            "PartSize": 2, "FaultMaxAge": policy.fault_max_age, "FaultCutoff": policy.fault_declaration_cutoff,
            "MinPower": policy.minimum_consensus_power.to_i64().unwrap(), "MinMiners": 4,
-           "MinLife": policy.min_sector_expiration, "MaxLife": policy.max_sector_expiration_extension})
+           "MinLife": policy.min_sector_expiration, "MaxLife": policy.max_sector_expiration_extension,
+           "AddrSectorsMax": policy.addressed_sectors_max, "AddrPartsMax": policy.addressed_partitions_max})
 }
 
 pub fn main(args: &[String]) {
@@ -913,7 +925,7 @@ pub fn main(args: &[String]) {
     let seed = arg_u64(args, "--seed", 1);
     let mut t = TraceOut::create(out);
     let mut sched_out = arg(args, "--schedules").map(TraceOut::create);
-    let policy = tiny_policy();
+    let policy = sectors_policy();
     let mut first = true;
     let mut begin = |t: &mut TraceOut, w: &World| {
         let ev = if first { "Init" } else { "Reset" };
@@ -964,6 +976,7 @@ pub fn main(args: &[String]) {
         if poor {
             w.drain();
         }
+        w.neglect.set(rng.chance(25));
         begin(&mut t, &w);
         let mut calls = vec![json!({"a": "Create", "miners": nm, "boost": boost, "poor": poor})];
         for _ in 0..len {
